@@ -162,6 +162,32 @@ func fsmReturns(c *core.Ctx) []fsmReturn {
 							return true
 						}
 					}
+					// `next, reason := s.other(); … return next, reason`: a delegation through locals
+					if id, isId := core.Unparen(ret.Results[0]).(*ast.Ident); isId {
+						defs := core.DefsOf(m, core.ObjOf(m.Pkg, id))
+						okAll := len(defs) > 0
+						var delegs []*core.Fn
+						for _, d := range defs {
+							call, isCall := core.Unparen(d).(*ast.CallExpr)
+							var g *core.Fn
+							if isCall {
+								g = p.FnOf(core.Callee(m.Pkg, call))
+							}
+							if g == nil || core.RecvName(g.Obj) != st || !returnsState(g) {
+								okAll = false
+								break
+							}
+							delegs = append(delegs, g)
+						}
+						if okAll {
+							for _, g := range delegs {
+								rr := r
+								rr.Deleg = g
+								out = append(out, rr)
+							}
+							return true
+						}
+					}
 					c.Undecided("fsm-extraction", m.Name()+" return", ret.Pos(), "first result of a state-returning return is not a newXState(...) constructor call")
 				}
 				return true
